@@ -94,6 +94,15 @@ class Tokenizer:
             return True
         return False
 
+    def _between(self, end: tuple[int, int] | None, start: tuple[int, int]) -> str:
+        """Source text between two tokens for which the tokenizer emits nothing (a backslash-newline)."""
+        if end is None or end == start:
+            return ""
+        lines = self.get_lines(list(range(end[0], start[0] + 1)))
+        if len(lines) == 1:
+            return lines[0][end[1] : start[1]]
+        return lines[0][end[1] :] + "".join(lines[1:-1]) + lines[-1][: start[1]]
+
     def consume_macro_params(self) -> TokenInfo:  # noqa: C901, PLR0912
         # loop until we get , or ) without consuming it
         start: tuple[int, int] | None = None
@@ -125,13 +134,13 @@ class Tokenizer:
 
                 if tok.is_exact_type(","):
                     break
-            end = tok.end
             if start is None:
                 start = tok.start
                 line = tok.line
                 string = tok.string
             else:
-                string += tok.string
+                string += self._between(end, tok.start) + tok.string
+            end = tok.end
 
         if (not string) and self._stack:
             # empty params
@@ -164,11 +173,11 @@ class Tokenizer:
                 if paren_level[-1] != self._end_parens[tok.string]:
                     raise self._syntax_error(f"Unmatched closing paren {tok.string} at {tok.start}", tok)
                 paren_level.pop()
-            end = tok.end
             if start is None:
                 start = tok.start
                 line = tok.line
-            string += tok.string
+            string += self._between(end, tok.start) + tok.string
+            end = tok.end
 
         if start is None or end is None:  # nothing after the ``!``
             return self._stack.pop()
